@@ -79,7 +79,15 @@ func decodeInto(b []byte, s io.Serializable, exact bool) error {
 	return nil
 }
 
-func varSize(v any) int { return io.GetVarSize(v) }
+// varSize is io.GetVarSize; it panics by contract on a value that cannot be encoded: such a value reports no size (-1).
+func varSize(v any) (n int) {
+	defer func() {
+		if recover() != nil {
+			n = -1
+		}
+	}()
+	return io.GetVarSize(v)
+}
 
 // through sends a payload through network.Message framing: Bytes() (compressed above the threshold), Decode.
 func through(cmd network.CommandType, p payload.Payload, srih bool) (payload.Payload, error) {
@@ -631,7 +639,15 @@ func (c manifestConv) FromStackItem(it stackitem.Item) error { return c.m.FromSt
 func nefKind() *kindT {
 	k := &kindT{name: "nef"}
 	nf := func(v any) *nef.File { return v.(*nef.File) }
-	k.hash = func(v any) string { return fmt.Sprintf("%08x/%08x", nf(v).Checksum, nf(v).CalculateChecksum()) }
+	k.hash = func(v any) (h string) {
+		// CalculateChecksum panics by contract on a file that cannot be encoded: such a file has no checksum
+		defer func() {
+			if recover() != nil {
+				h = fmt.Sprintf("%08x/unencodable", nf(v).Checksum)
+			}
+		}()
+		return fmt.Sprintf("%08x/%08x", nf(v).Checksum, nf(v).CalculateChecksum())
+	}
 	k.sizes = func(v any) map[string]int { return map[string]int{"GetVarSize": varSize(nf(v))} }
 	k.enc = func(v any) ([]byte, error) { return nf(v).Bytes() }
 	k.jenc = func(v any) ([]byte, error) { return json.Marshal(nf(v)) }
